@@ -44,15 +44,15 @@ def analyse(a, b, mism, other):
     if ta == "list":
         if len(a) != len(b):
             other.append("len")
-            return
+        # (whether the length or the common prefix is looked at first is not specified)
         for x, y in zip(a, b):
             analyse(x, y, mism, other)
     elif ta == "object":
         if len(a) != len(b) or set(a) != set(b):
             other.append("keys")
-            return
         for k in a:
-            analyse(a[k], b[k], mism, other)
+            if k in b:
+                analyse(a[k], b[k], mism, other)
     elif a != b:
         other.append("value")
 
@@ -130,15 +130,40 @@ def make_pool(tier, rng):
     add(lambda n: [A.Declare(V(n), V(f1))], Fn, ident=f1)
     add(lambda n: [A.Declare(V(n), A.FuncE([], False, [A.Return(I(1))]))], Fn)
     add(lambda n: [A.Declare(V(n), V("print"))], "builtin")
+    # the same function value sitting in two distinct containers, after an equal prefix
+    add(lambda n: [A.Declare(V(n), A.lst(I(0), V(f1)))], [0, Fn])
+    add(lambda n: [A.Declare(V(n), A.lst(I(0), V(f1)))], [0, Fn])
+    add(lambda n: [A.Declare(V(n), A.obj(("a", I(0)), ("f", V(f1))))], {"a": 0, "f": Fn})
+    add(lambda n: [A.Declare(V(n), A.obj(("a", I(0)), ("f", V(f1))))], {"a": 0, "f": Fn})
+    add(lambda n: [A.Declare(V(n), A.lst(V("print")))], [Fn])
+    # a container occurring twice in one operand, compared with look-alikes that differ late
+    add(lambda n: [A.Declare(V(n), A.lst(V("sh"), V("sh"), V("sh")))], [[0], [0], [0]])
+    add(lambda n: [A.Declare(V(n), A.lst(A.lst(I(0)), A.lst(I(0)), A.lst(I(1))))], [[0], [0], [1]])
+    add(lambda n: [A.Declare(V(n), A.lst(A.lst(I(0)), A.lst(I(0)), A.lst(A.Bool(True))))], [[0], [0], [True]])
+    add(lambda n: [A.Declare(V(n), A.obj(("a", V("sh")), ("b", V("sh"))))], {"a": [0], "b": [0]})
+    add(lambda n: [A.Declare(V(n), A.obj(("a", A.lst(I(0))), ("b", A.lst(I(7)))))], {"a": [0], "b": [7]})
     return pool
 
 
 def absval(v):
-    return Fn() if v is Fn else (Fn() if v == "builtin" else v)
+    if v is Fn or v == "builtin":
+        return Fn()
+    if isinstance(v, list):
+        return [absval(x) for x in v]
+    if isinstance(v, dict):
+        return {k: absval(x) for k, x in v.items()}
+    return v
 
 
 def is_fn(v):
-    return v is Fn or v == "builtin"
+    """value is or contains a function (cannot be printed canonically / compared)"""
+    if v is Fn or v == "builtin":
+        return True
+    if isinstance(v, list):
+        return any(is_fn(x) for x in v)
+    if isinstance(v, dict):
+        return any(is_fn(x) for x in v.values())
+    return False
 
 
 def pool_setup(pool):
@@ -153,9 +178,7 @@ def printable(pool):
 
 
 def classify(x, y):
-    ax = Fn() if is_fn(x) else x
-    ay = Fn() if is_fn(y) else y
-    return abs_eq(ax, ay)
+    return abs_eq(absval(x), absval(y))
 
 
 def row_work(arg):
@@ -174,6 +197,8 @@ def row_work(arg):
         ni, _, ai, idi = pool[i]
         for j, (nj, _, aj, idj) in enumerate(pool):
             k = classify(ai, aj)
+            if idi == idj and is_fn(ai):
+                k = ("skip",)        # the same cell holding a function: identity short cut vs reaching the pair is not specified
             if k[0] == "bool":
                 cells.append((i, j, "==", k[1]))
                 prog.append(A.pr(A.Bin("==", V(ni), V(nj))))
@@ -350,6 +375,8 @@ def run(rep, tier):
     for i in range(n):
         for j in range(n):
             k = classify(pool[i][2], pool[j][2])
+            if pool[i][3] == pool[j][3] and is_fn(pool[i][2]):
+                continue
             if k[0] != "bool":
                 pairs.append((i, j, "=="))
                 if (i + j) % 3 == 0:
